@@ -185,7 +185,7 @@ def run(tier):
                 caplay = {0: 99, 1: 18278, 2: 702, 3: 702}[conv]
                 capcol = {0: 18278, 1: 99, 2: 999, 3: 18278}[conv]
                 # the layer generator skips the surface layer's own name ('atm' = 1209, 'at' = 46)
-                skip = {1: 1209, 2: 46}.get(conv)
+                skip = {1: 1209, 2: 46}.get(conv) if case == "l" else None       # upper-case names never equal the lower-case surface name
                 need_lay = nlay + (1 if skip and nlay >= skip else 0)
                 ncorner = ncols + 1 + 1 if True else 0       # a strip of ncols columns has 2*(ncols+1) nodes
                 nnodes = 2 * (ncols + 1)
